@@ -381,5 +381,21 @@ func (m *msgSpec) computeSizeClasses() []string {
 	if m.UTF8 {
 		out = append(out, "utf8_envelope")
 	}
+	// envelope / metadata shapes (meta_test.go), pipeline family (pipeline_test.go)
+	if m.NullSender {
+		out = append(out, "null_sender")
+	}
+	if m.OrigFromUnset {
+		out = append(out, "original_from_unset")
+	}
+	if m.RichMeta {
+		out = append(out, "rich_msgmeta")
+	}
+	if m.IDKind != "" {
+		out = append(out, "odd_msg_id")
+	}
+	if len(m.OtherRcpts) > 0 {
+		out = append(out, "via_pipeline_two_targets")
+	}
 	return out
 }
